@@ -23,7 +23,9 @@ type Body struct {
 	N      int64  `json:"n"`
 }
 
-func (b Body) String() string { return fmt.Sprintf("{status:%s owner:%s n:%d}", b.Status, b.Owner, b.N) }
+func (b Body) String() string {
+	return fmt.Sprintf("{status:%s owner:%s n:%d}", b.Status, b.Owner, b.N)
+}
 
 func mpStr(b []byte, s string) []byte {
 	n := len(s)
